@@ -307,10 +307,11 @@ def gen_deck(rng):
         next_sid[0] += 1
         dck['surfaces'].append(twin)
         info['dups'] += 1
+        flip = -1 if twin.pop('reversed', False) else 1
         for cell in dck['cells']:
             cell['expr'] = substitute(rng, cell['expr'], surf['id'],
-                                      twin['id'], 0.5)
-        if rng.random() < 0.4:
+                                      flip * twin['id'], 0.5)
+        if flip == 1 and rng.random() < 0.4:
             # a sliver between the two copies: `a -a'` is empty, `a : -a'` is
             # everything; both only after de-duplication patently so
             cell = rng.choice([c for c in dck['cells'] if not c.get('lat')])
@@ -342,7 +343,20 @@ def gen_deck(rng):
 
 def duplicate_of(rng, surf, sid, dck):
     mn, prm = surf['mn'], surf['params']
-    kind = rng.choice(['same', 'same', 'general', 'tr'])
+    kind = rng.choice(['same', 'same', 'general', 'tr', 'reversed'])
+    if kind == 'reversed':
+        # the same locus with the opposite orientation: every coefficient of
+        # the plane negated; the callers use it with the opposite sign
+        if mn in ('px', 'py', 'pz'):
+            n = [0.0, 0.0, 0.0]
+            k = rng.choice([1.0, 2.0])
+            n['xyz'.index(mn[1])] = -k
+            return {'id': sid, 'mn': 'p', 'params': n + [-k * prm[0]],
+                    'tr': None, 'bc': '', 'reversed': True}
+        if mn == 'p':
+            return {'id': sid, 'mn': 'p', 'params': [-v for v in prm],
+                    'tr': surf.get('tr'), 'bc': '', 'reversed': True}
+        kind = 'same'
     if kind == 'general' and mn in ('px', 'py', 'pz'):
         n = [0.0, 0.0, 0.0]
         k = rng.choice([1.0, 2.0])
